@@ -256,6 +256,23 @@ func opKind(desc string) string {
 // Point is a scheduling point for code outside this package (vatomic).
 func Point(desc string) { point(desc, nil) }
 
+// AfterRelease adds a second scheduling point AFTER every operation that publishes or hands
+// something over (Unlock, atomic writes, WaitGroup.Done, Signal/Broadcast, channel send/close;
+// Pool.Put always has one). Scheduling only before synchronisation operations makes the block
+// "release; plain accesses" atomic, which is sound for data-race-free code only: with these
+// points another thread can run between a release and the plain reads/writes that follow it
+// (use after release, publish before the write it guards).
+var AfterRelease = true
+
+func after(desc string) {
+	if AfterRelease && controlled && sc != nil && !sc.aborted {
+		point(desc+" done", nil)
+	}
+}
+
+// After is after() for code outside this package (vatomic).
+func After(desc string) { after(desc) }
+
 // Aborted reports whether the current controlled run is being torn down;
 // operations become no-ops so that deferred calls can unwind.
 func aborted() bool { return sc != nil && sc.aborted }
